@@ -99,6 +99,7 @@ package texttable
 //@ func (*TextTable).RenderTo
 //@   tags C03,C04,C15,C17,C09,C14
 //@   requires t != nil && tbl(t.Table) && ttab(t).nColumns <= 1048576
+//@   assigns heap[tabular.propertyImpl.properties], new(tabular.valueProperty), ttab(t).ErrorContainer.errors_, elemscap(ttab(t).ErrorContainer.errors_), ghost cbErrN, ghost cbErrLog, ghost cbCallN, ghost cbCallSelf, ghost cbCallOwner, ghost stage, ghost fires, ghost stageR, ghost firesR, ghost stageT, ghost stageC, ghost Wn, ghost Wchunk, ghost Wfailed, new(int), new(string), new(align.Alignment), new(decoration.WidthString), new([]decoration.WidthString), new(decoration.emitter), new(tabular.Cell)
 //@   requires [writer-ok] !Wfailed
 //@   call InvokeRenderCallbacks after assume alignsValid(ttab(t)) && measuredOK()
 //@   ensures [table-still-wellformed] tbl(t.Table) @C09,C14
